@@ -14,7 +14,7 @@ type C16Spec struct {
 	Case   *FmtCase `json:"case"` // Route: "print" or "printf"
 	Prefix []*Op    `json:"prefix"`
 	Suffix []*Op    `json:"suffix"`
-	Writer int      `json:"writer"` // 0 ok, 1 fails, 2 short
+	Writer int      `json:"writer"` // 0 ok, 1 fails, 2 short with error, 3 short without error
 }
 
 func init() {
@@ -92,6 +92,10 @@ func checkC16(s *C16Spec) Result {
 	case 2:
 		if n != len(ref)/2 || err != io.ErrShortWrite {
 			return fail("F variant returned (%d, %v), the writer returned (%d, %v)", n, err, len(ref)/2, io.ErrShortWrite)
+		}
+	case 3:
+		if n != len(ref)/2 || err != nil {
+			return fail("F variant returned (%d, %v), the writer returned (%d, nil)", n, err, len(ref)/2)
 		}
 	}
 	res.Classes = append(res.Classes, fmt.Sprintf("writer:%d", s.Writer))
